@@ -17,7 +17,7 @@ import itertools
 
 DEFAULT_FEAT = dict(
     subtypes=True, constants=True, neg=True, equality=True, numeric=True, when=True, forall_eff=True,
-    or_pre=False, forall_pre=False, bare_pre=False, nested_numeric=False, nested_cond=False, join_names=False, tiny_offsets=False, dense_quant=False, implicit_parent_types=False, many_constants=False, object_params=False, agentless_action=False,   # nested / quantified / unwrapped preconditions
+    or_pre=False, forall_pre=False, bare_pre=False, nested_numeric=False, nested_cond=False, join_names=False, tiny_offsets=False, dense_quant=False, implicit_parent_types=False, many_constants=False, object_params=False, deep_types=False, agentless_action=False,   # nested / quantified / unwrapped preconditions
     cond_numeric=True,                       # numeric comparisons inside when/forall conditions
     child_first_types=False,                 # D10 finding profile
     repeated_call_objects=True, long_names=False,
@@ -54,7 +54,17 @@ def gen_domain(t, feat=None, multi_agent=False):
     types = {}
     if multi_agent:
         types["agent"] = "object"
+    chain = []
+    if f.get("deep_types") and f["subtypes"]:
+        # round 15: a linear chain of 8-11 types above (some of) the ordinary ones, so that an object's type can be 9 or
+        # more levels below the type a parameter or quantifier names
+        chain = [f"lv{i}" for i in t.shuffle(list(range(8 + t.draw(4))))]
+        for i, n in enumerate(chain):
+            types[n] = "object" if i == 0 else chain[i - 1]
     for i, n in enumerate(names):
+        if chain and t.chance(1, 2):
+            types[n] = chain[-1] if t.chance(2, 3) else t.pick(chain)
+            continue
         types[n] = "object" if i == 0 or not f["subtypes"] or t.chance(1, 2) else names[t.draw(i)]
     D["types"] = types
     tnames = list(types)
